@@ -1,6 +1,8 @@
 """C06 — BVH broad phase + self-collision: correspondence with the Lean model (exact, incl. dict
 order and tree arrays), Lean-run linkCheck (= C05 wfCheck + leaf/collider link) on the
 implementation's state after every operation, all-pairs brute-force / narrow-phase oracle."""
+import itertools
+import os
 import re
 
 import numpy as np
@@ -14,16 +16,19 @@ RULE = ("scenarios drawn from one PRNG: (U) URDF strings for random kinematic ch
         "with random joint histories; (A) BVHs built only with add_collider (sphere/box/cylinder/capsule, random or "
         "hand-made asymmetric whitelists, tm.add_transform histories); (L) lattice variant of A (dyadic positions, "
         "axis-permutation rotations: touching/nested/duplicate AABBs); (M) edge: empty BVH, single collider, duplicate "
-        "add_collider without update, missing whitelist. After every update: poses, 3 broad-phase queries, detect, "
+        "add_collider without update, missing whitelist; (X) exhaustive whitelist logic: 3 spheres, 2 geometries, all 512 "
+        "whitelist assignments; (T) generated whitelists on every kinematic tree with <= 5 links; the repository's robot.urdf "
+        "fixture with joint histories. After every update: poses, 3 broad-phase queries, detect, "
         "detect_any. A case is non-trivial if it has >= 2 colliders and >= 1 update; distinct = distinct driver line")
 EXPLANATION = ("the broad-phase theorems are proved for every state accepted by the decidable linkCheck (proved sound); "
                "this run executes linkCheck in Lean on the implementation's tree arrays / external_data_list / colliders_ "
                "after every operation, compares every result of the faithful model (dict order included) with the "
                "implementation exactly, and checks the implementation against brute force and an all-pairs GJK table")
 PARTIAL = {
-    "poses_current": "the array-level insert_aabb is C05's model; that the rebuilt tree's leaves are the current AABBs is "
-                     "proved on the tree layer (poses_current_tree, from C05.history_leaves) and for the array layer "
-                     "checked at run time by linkCheck on the implementation's arrays (C05's insertLeaf_refines is not proved)",
+    "poses_current_tree": "that the rebuilt tree's leaves are exactly the current AABBs is proved on the tree layer (C05 "
+                          "T.insert, from C05.history_leaves); that the array-level insert_aabb implements the tree-layer "
+                          "insertion (C05's insertLeaf_refines) is not proved: linkCheck is executed in Lean on the "
+                          "implementation's arrays after every operation instead",
 }
 ASSUMPTIONS = ["tm.get_transform(frame, 'origin') (pytransform3d kinematics, URDF parsing) is a parameter getT of the model",
                "gjk_intersection is an abstract predicate hit on frames; 'hit implies AABB overlap' (C04 + C02) is a "
@@ -548,9 +553,12 @@ def enc_history(sc, rec):
     # per-frame tables pose -> aabb
     tables = {}
 
+    tkey = {}   # frame -> key of the table of the collider object currently stored for that frame
+
     def tab(f, pose, aabb):
-        tables.setdefault(f, []).append((pose, aabb))
-        return len(tables[f]) - 1
+        k = tkey.setdefault(f, f)
+        tables.setdefault(k, []).append((pose, aabb))
+        return [str(ids(k)), str(len(tables[k]) - 1)]
 
     ops, expect = [], []
 
@@ -564,29 +572,23 @@ def enc_history(sc, rec):
     ost = rec["other_state"]
     oaabb = dict((f, b) for f, b in ost["colliders"])
     for f, c in oinit.items():
-        j = tab(f, c["pose"], oaabb[f])
-        op(["add", str(ids(f)), str(j)], "ok")
+        op(["add", str(ids(f))] + tab(f, c["pose"], oaabb[f]), "ok")
     if oinit:
-        op(["upd", str(len(oinit))] + [x for f in oinit for x in (str(ids(f)), "0")], "ok")
+        op(["upd", str(len(oinit))] + [x for f in oinit for x in (str(ids(f)), str(ids(f)), "0")], "ok")
     op(["dump"], dump_string(ost, ids))
     op(["bvh", "0"], "ok")
     first = obs[0]
     if sc["kind"] == "urdf":
         for f in first["frames"]:
-            j = tab(f, first["tm_pose"][f], first["aabb"][f])
-            op(["add", str(ids(f)), str(j)], "ok")
-        op(["upd", str(len(first["frames"]))] + [x for f in first["frames"] for x in (str(ids(f)), "0")], "ok")
-        cur = {f: 0 for f in first["frames"]}
+            op(["add", str(ids(f))] + tab(f, first["tm_pose"][f], first["aabb"][f]), "ok")
+        op(["upd", str(len(first["frames"]))] + [x for f in first["frames"] for x in (str(ids(f)), str(ids(f)), "0")], "ok")
     else:
-        cur = {}
         for ini in rec["init"]:
-            j = tab(ini["frame"], ini["pose"], ini["aabb"])
-            op(["add", str(ids(ini["frame"])), str(j)], "ok")
-            cur[ini["frame"]] = j
+            op(["add", str(ids(ini["frame"]))] + tab(ini["frame"], ini["pose"], ini["aabb"]), "ok")
         if rec.get("dup_init"):
             ini = rec["dup_init"]
-            j = tab(ini["frame"], ini["pose"], ini["aabb"])
-            op(["add", str(ids(ini["frame"])), str(j)], "ok")
+            tkey[ini["frame"]] = "dup:" + ini["frame"]     # a second collider object (other shape) for this frame
+            op(["add", str(ids(ini["frame"]))] + tab(ini["frame"], ini["pose"], ini["aabb"]), "ok")
 
     def enc_obs(k, ob):
         op(["dump"], dump_string(ob["state"], ids))
@@ -618,8 +620,7 @@ def enc_history(sc, rec):
         ob = obs[k]
         upd = []
         for f in ob["frames"]:
-            j = tab(f, ob["tm_pose"][f], ob["aabb"][f])
-            upd += [str(ids(f)), str(j)]
+            upd += [str(ids(f))] + tab(f, ob["tm_pose"][f], ob["aabb"][f])
         op(["upd", str(len(ob["frames"]))] + upd, "ok")
         enc_obs(k, ob)
     # header
@@ -718,7 +719,6 @@ def run_scenarios(ctx, scs, engine_results=None, tag="interp"):
         cid, expect, tokens = it["hist"]
         mout = out.get(cid, "bad missing")
         mparts = [norm(x) for x in mout.split(" | ")]
-        opnames = [t for t in tokens if t in ("bvh", "add", "upd", "dump", "link", "qc", "self", "oth", "det", "any")]
         if len(mparts) != len(expect):
             ctx.broke("correspondence", "C06.hist", "model output has %d parts, expected %d: %s" % (
                 len(mparts), len(expect), mout[:300]), {"scenario": sc})
@@ -799,6 +799,91 @@ def corpus():
     return [("A", asym), ("A", noself), ("L", touching), ("M", empty), ("U", branch)]
 
 
+def fixture_scenarios(rng):
+    """the repository's own robot.urdf (6 revolute joints, 8 primitive colliders) with joint histories,
+    including the three configurations of test_self_collision.py"""
+    path = os.path.join(core.REPO, "test", "data", "robot.urdf")
+    if not os.path.exists(path):
+        return []
+    urdf = open(path).read().replace('<robot name="robot_arm">', '<robot name="rob">')
+    if '<robot name="rob">' not in urdf:
+        return []
+    steps = [{"joint2": 1.57, "joint3": 1.57, "joint5": 1.93}, {"joint2": 1.57, "joint3": 1.57, "joint5": 2.05}]
+    for _ in range(3):
+        steps.append({"joint%d" % j: rng.uniform(-3.0, 3.0) for j in range(1, 7) if rng.random() < 0.8})
+    sc = {"kind": "urdf", "urdf": urdf, "steps": steps,
+          "queries": [gen_queries(rng, False, [], 0.8) for _ in range(len(steps) + 1)],
+          "other": gen_add_part(rng, False, 4, prefix="o")}
+    return [("U", sc)]
+
+
+def whitelist_exhaustive(ctx):
+    """whitelist logic, exhaustively: three spheres a, b, c; two geometries (chain: a|b and b|c collide;
+    clique: all collide); every assignment of whitelists wl[f] subset of {a, b, c} (8^3 = 512, symmetric and
+    asymmetric, with and without the frame itself); quick: one dict order per geometry plus a random sample of
+    the other orders, thorough: all 6 insertion orders"""
+    def at(x):
+        A = np.eye(4)
+        A[0, 3] = x
+        return A.tolist()
+    sph = {"shape": "sphere", "radius": 0.5}
+    geoms = {"chain": {"a": 0.0, "b": 0.75, "c": 1.5}, "clique": {"a": 0.0, "b": 0.25, "c": 0.5}}
+    subsets = [list(c) for k in range(4) for c in itertools.combinations("abc", k)]
+    orders = list(itertools.permutations("abc"))
+    scs = []
+    for gname, pos in geoms.items():
+        for wa in subsets:
+            for wb in subsets:
+                for wc in subsets:
+                    if ctx.thorough:
+                        use = orders
+                    else:
+                        use = [orders[0]] + ([ctx.rng.choice(orders[1:])] if ctx.rng.random() < 0.25 else [])
+                    for order in use:
+                        scs.append(("X", {"kind": "add", "colliders": [{"frame": f, "spec": sph, "pose": at(pos[f])} for f in order],
+                                          "whitelists": {"a": wa, "b": wb, "c": wc}, "steps": [{}], "stale_init": False,
+                                          "dup": None, "queries": [[], []], "other": []}))
+    return scs
+
+
+def whitelist_topologies(ctx):
+    """urdf_utils.self_collision_whitelists vs the model on every kinematic tree with <= 5 links
+    (parent[i] < i: 1 + 1 + 2 + 6 + 24 topologies), 0..2 collision objects per link"""
+    from pytransform3d.urdf import UrdfTransformManager
+    from distance3d import urdf_utils
+    drv = core.Driver("c06-topo")
+    plan = []
+    for n in range(1, 6):
+        for parents in itertools.product(*[range(i) for i in range(1, n)]):
+            ncols = [ctx.rng.choice([0, 1, 1, 2]) for _ in range(n)]
+            parts = []
+            for i in range(n):
+                cols = "".join('<collision><origin xyz="0 0 %d"/><geometry><sphere radius="0.1"/></geometry></collision>' % k
+                               for k in range(ncols[i]))
+                parts.append('<link name="l%d">%s</link>' % (i, cols))
+            for i, p in enumerate(parents, start=1):
+                parts.append('<joint name="j%d" type="revolute"><parent link="l%d"/><child link="l%d"/><origin xyz="0 0 1"/>'
+                             '<axis xyz="0 1 0"/><limit lower="-1" upper="1"/></joint>' % (i, p, i))
+            urdf = '<?xml version="1.0"?><robot name="rob">%s</robot>' % "".join(parts)
+            tm = UrdfTransformManager()
+            tm.load_urdf(urdf)
+            info = {"transforms": [list(k) for k in tm.transforms.keys()], "nodes": list(tm.nodes),
+                    "collision_frames": [o.frame for o in tm.collision_objects],
+                    "generated": [[f, list(w)] for f, w in urdf_utils.self_collision_whitelists(tm).items()]}
+            t, want = enc_wl(info)
+            plan.append((urdf, drv.add("C06.wl", "F", t), want, info))
+            ctx.count("T:topo", key=urdf, nontrivial=n >= 2)
+    out = drv.run()
+    for urdf, cid, want, info in plan:
+        got = norm(out.get(cid, "bad missing"))
+        gen = dict((f, w) for f, w in info["generated"])
+        asym = any((g in gen.get(f, [])) != (f in gen.get(g, [])) for f in gen for g in gen)
+        ctx.branch("whitelist-gen", "asymmetric" if asym else "symmetric")
+        if got != want:
+            ctx.broke("correspondence", "self_collision_whitelists", "impl=%s model=%s" % (want[:300], got[:300]),
+                      {"urdf": urdf})
+
+
 def gen_all(ctx, n):
     scs = []
     for _ in range(n):
@@ -809,13 +894,17 @@ def gen_all(ctx, n):
 
 
 def correspondence(ctx):
-    run_scenarios(ctx, corpus())
-    run_scenarios(ctx, gen_all(ctx, ctx.budget(150, 3000)))
+    run_scenarios(ctx, corpus() + fixture_scenarios(ctx.rng))
+    run_scenarios(ctx, whitelist_exhaustive(ctx), tag="wl")
+    whitelist_topologies(ctx)
+    n = ctx.budget(220, 3000)
+    for k in range(0, n, 300):  # batches keep the driver input small
+        run_scenarios(ctx, gen_all(ctx, min(300, n - k)))
 
 
 def search(ctx):
     """oracle only, larger scenarios and longer joint histories (real code only)"""
-    n = ctx.budget(60, 1500) * (3 if ctx.extra.get("search_boost") else 1)
+    n = ctx.budget(110, 2000) * (3 if ctx.extra.get("search_boost") else 1)
     for _ in range(n):
         stream = ctx.rng.choice(["U", "U", "A", "L"])
         sc = gen_scenario(ctx.rng, stream)
